@@ -24,6 +24,7 @@ import (
 	"github.com/failsafe-go/failsafe-go/hedgepolicy"
 	"github.com/failsafe-go/failsafe-go/ratelimiter"
 	"github.com/failsafe-go/failsafe-go/retrypolicy"
+	"github.com/failsafe-go/failsafe-go/timeout"
 
 	"pgregory.net/rapid"
 
@@ -180,7 +181,7 @@ func TestEventsConcurrent(t *testing.T) {
 // permit, a rate limiter permit or a retry delay (an hour each); its context is cancelled meanwhile. That is not a
 // rejection, not a started retry, and not exhaustion.
 type waitScen struct {
-	Wait       string `json:"wait"` // bulkhead | limiter | retry-delay | limiter-after-refusal
+	Wait       string `json:"wait"` // bulkhead | limiter | retry-delay | limiter-after-refusal | timeout-ignored-cancel
 	Async      bool   `json:"async"`
 	CancelUs   int    `json:"cancel_us"` // 0: the context is already cancelled at submission
 	Then       bool   `json:"then_real_rejection"`
@@ -192,7 +193,7 @@ func TestEventsWhenWaitsAreCancelled(t *testing.T) {
 	st := harness.NewStats(test)
 	defer st.Flush()
 	rapid.Check(t, func(t *rapid.T) {
-		sc := waitScen{Wait: rapid.SampledFrom([]string{"bulkhead", "limiter", "retry-delay", "limiter-after-refusal"}).Draw(t, "wait"), Async: rapid.Bool().Draw(t, "async"),
+		sc := waitScen{Wait: rapid.SampledFrom([]string{"bulkhead", "limiter", "retry-delay", "limiter-after-refusal", "timeout-ignored-cancel"}).Draw(t, "wait"), Async: rapid.Bool().Draw(t, "async"),
 			CancelUs: rapid.SampledFrom([]int{0, 50, 300, 1000}).Draw(t, "cancelUs"), Then: rapid.Bool().Draw(t, "then")}
 		if sc.Wait == "limiter-after-refusal" {
 			sc.MaxRetries = rapid.SampledFrom([]int{1, 3, -1}).Draw(t, "maxRetries")
@@ -224,6 +225,11 @@ func runWaitCancelled(t harness.TB, st *harness.Stats, sc waitScen) {
 			rl = ratelimiter.SmoothBuilderWithMaxRate[int](time.Hour).WithMaxWaitTime(2 * time.Hour).OnRateLimitExceeded(func(failsafe.ExecutionEvent[int]) { hit("OnRateLimitExceeded") }).Build()
 			rl.TryAcquirePermit()
 			pol = rl
+		case "timeout-ignored-cancel":
+			// a Timeout of 2 ms around a function that takes 6 ms and ignores the cancellation of its context, which arrives
+			// before the limit: whether the Timeout or the function decides the outcome, the listener fires exactly when the
+			// caller is told that the time limit was exceeded
+			pol = timeout.Builder[int](2 * time.Millisecond).OnTimeoutExceeded(func(failsafe.ExecutionDoneEvent[int]) { hit("OnTimeoutExceeded") }).Build()
 		case "limiter-after-refusal":
 			// Retry(RateLimiter) on a stopwatch the harness owns: the first attempt is refused for real (one hour to wait,
 			// half an hour allowed), the listener moves the stopwatch on by 40 minutes, so every later attempt is admitted
@@ -256,7 +262,13 @@ func runWaitCancelled(t harness.TB, st *harness.Stats, sc waitScen) {
 			OnSuccess(func(failsafe.ExecutionDoneEvent[int]) { hit("OnSuccess") }).
 			OnFailure(func(failsafe.ExecutionDoneEvent[int]) { hit("OnFailure") })
 		calls := 0
-		fn := func() (int, error) { calls++; return 0, compose.EA }
+		fn := func() (int, error) {
+			calls++
+			if sc.Wait == "timeout-ignored-cancel" {
+				time.Sleep(6 * time.Millisecond)
+			}
+			return 0, compose.EA
+		}
 		if sc.CancelUs == 0 {
 			cancel()
 		} else {
@@ -297,6 +309,27 @@ func runWaitCancelled(t harness.TB, st *harness.Stats, sc waitScen) {
 		case "limiter":
 			if c["OnRateLimitExceeded"] != 0 {
 				bad("OnRateLimitExceeded fired %d times although nothing was rejected", c["OnRateLimitExceeded"])
+			}
+		case "timeout-ignored-cancel":
+			want := 0
+			if errors.Is(err, timeout.ErrExceeded) {
+				want = 1
+			}
+			for w := harness.Wait(30 * time.Second); want == 1 && !w.Expired(); {
+				mu.Lock()
+				n := counts["OnTimeoutExceeded"]
+				mu.Unlock()
+				if n >= 1 {
+					break
+				}
+				time.Sleep(100 * time.Microsecond)
+			}
+			time.Sleep(5 * time.Millisecond) // a listener that should not fire, or fires twice, gets its chance
+			mu.Lock()
+			n := counts["OnTimeoutExceeded"]
+			mu.Unlock()
+			if n != want {
+				bad("OnTimeoutExceeded fired %d times for an execution that ended with %v", n, err)
 			}
 		case "limiter-after-refusal":
 			// only the first attempt can have been refused; afterwards the stopwatch stands at 40 minutes and waits are allowed
